@@ -117,3 +117,25 @@ class FaultyCloud:
         if int(lat) == self.k:
             raise InjectedFault(self.k)
         return -float("inf")
+
+
+class RaisingCloud:
+    """a `cloudf(lat, long)` callable that raises an exception of a given built-in type at the event whose index travels in `lat`"""
+
+    def __init__(self, k, exc_name):
+        self.k, self.exc_name = k, exc_name
+
+    def __call__(self, lat, long):
+        if int(lat) == self.k:
+            raise getattr(__import__("builtins"), self.exc_name)(f"injected {self.exc_name} at event {self.k}")
+        return -float("inf")
+
+
+class SiteCloud:
+    """a location-dependent cloud model: the cloud top depends on the event's ground site (index travels in `lat`)"""
+
+    def __init__(self, tops):
+        self.tops = tops
+
+    def __call__(self, lat, long):
+        return self.tops[int(lat) % len(self.tops)]
